@@ -78,7 +78,7 @@ def run(ctx):
     cfg = yaw.Configuration.create(rmin=1.0, rmax=10.0, unit="arcmin", edges=[0.1, 0.5, 1.0], max_workers=1)
     N = ctx.n(14, 160)
     for cid in range(N):
-        ncent = rng.choice([2, 3, 4, 5])
+        ncent = rng.choice([2, 3, 4, 5, 5, 12])     # 12: patch_10 / patch_11 sort before patch_2 as strings
         ra0, dec0 = rng.choice([(30.0, 10.0), (359.5, -40.0), (120.0, 88.5), (250.0, -89.0), (0.2, 0.0)])
         spacing = rng.choice([0.5, 1.0, 3.0])
         cents = [offset(ra0, dec0, k * spacing, (k % 2) * spacing * 0.3) for k in range(ncent)]
